@@ -34,6 +34,9 @@ def base_src(rel):
 # functions of the anchored FILES that the line ranges do not reach but a check's oracle stage drives (added after a
 # seeded change to one of them was missed by the shape tie)
 EXTRA_PINS = {
+    # where a declared affinity limit becomes the limit the placement guards compare with (thirteenth seeded round)
+    'C04': [('treadmill/scheduler/__init__.py', 'Affinity.__init__')],
+    'C02': [('treadmill/scheduler/__init__.py', 'Affinity.__init__')],
     'C03': [('treadmill/scheduler/loader.py', 'Loader.load_allocations'), ('treadmill/scheduler/loader.py', 'Loader.create_server'),
             ('treadmill/scheduler/loader.py', 'Loader.load_server'), ('treadmill/scheduler/loader.py', 'Loader.load_app'),
             ('treadmill/scheduler/loader.py', 'Loader.reload_server'), ('treadmill/scheduler/loader.py', 'Loader.set_server_valid_until')],
